@@ -448,6 +448,13 @@ func Monitor(rc *RunCtx, l *Ledger, pop *Population, o *Op, r *OpResult, step in
 		}
 		a := pop.Accts[e.Acct]
 		rc.Stats.Inc("signatures_released", 1)
+		if len(e.AddrKey) >= 48 && !bytes.Equal(e.AddrKey[:48], a.PubKey) {
+			// The request named a public key of its own choosing: whatever comes back is a signature under that key.
+			if !VerifySig(e.AddrKey[:48], r.Sigs[i], e.ObjectRoot(o.Kind), e.Domain) {
+				rc.Violate("C08", "invalid-signature", fmt.Sprintf("%s position %d: the request addressed the public key %x... and the signature returned does not verify under it", o, i, e.AddrKey[:6]), step)
+			}
+			continue
+		}
 		if !VerifySig(a.PubKey, r.Sigs[i], e.ObjectRoot(o.Kind), e.Domain) {
 			rc.Violate("C08", "invalid-signature", fmt.Sprintf("%s position %d: signature does not verify under %s over the submitted data", o, i, a.KName), step)
 		}
